@@ -179,7 +179,10 @@ def e2_product(run, acc, inst, cfgs, extra_ops=(), observers=(), budget=3000000,
             rec["witnesses_judged"] = len(j["witnesses"])
             rec["witness_verdicts"] = sorted({f[2] for f in v["fails"]})
         if not j["closed"] and j["mismatching_transitions"] == 0:
-            raise ToolError(f"E2 product of {inst} did not close within the budget although nothing mismatched")
+            # more product states than the budget although every executed transition matched: on correct code the product of
+            # this instance closes, so the representation keeps drifting without an observable effect yet (no alarm on its
+            # own, section 4 rule 5); recorded, and the traces at the real limits go on
+            acc.notes.setdefault("products_not_closed_within_budget", []).append(rec["instance"])
     return ts
 
 
